@@ -52,7 +52,7 @@ func genC15(x *Ctx) *c15Scen {
 	}
 	first := c15First[tp.G(len(c15First))]
 	if first != "none" {
-		c := c15Call{Kind: first, Status: []int{200, 201, 404, 500, 202}[tp.G(5)], N: tp.G(maxN + 1)}
+		c := c15Call{Kind: first, Status: []int{200, 201, 404, 500, 202, 42, 1000, 299}[tp.G(8)], N: tp.G(maxN + 1)}
 		c.Nil = tp.Chance(80)
 		sc.Calls = append(sc.Calls, c)
 	}
